@@ -85,7 +85,7 @@ func vC19ProcTerm(sig int, ops []vProcOp, vec [vC19NCounters]int64) string {
 	for i, o := range ops {
 		it[i] = vPair(vZ(int64(o.nin)), vPair(vZ(int64(o.res)), vPair(vZ(int64(o.nout)), vBool(o.nextErr))))
 	}
-	return fmt.Sprintf("CProc %s %s %s", vZ(int64(sig)), vList(it), vC19Vec(vec))
+	return fmt.Sprintf("(CProc %s %s %s)", vZ(int64(sig)), vList(it), vC19Vec(vec))
 }
 
 func TestVerifC19Proc(t *testing.T) {
